@@ -136,3 +136,124 @@ class Refine(Harness):
 
 
 HARNESSES = [Refine()]
+
+
+# ------------------------------------------------------------------------------------------------
+from antismash.common.hmm_rule_parser import cluster_prediction as cp  # noqa: E402
+
+CPM = "antismash.common.hmm_rule_parser.cluster_prediction:"
+
+
+class FakeProfileHSP:
+    """stand-in for Bio's HSP as used by filter_results: identity equality; the hash is a harness-chosen small
+    int, so that the iteration order of the sets built from these objects is deterministic within a run and
+    every order is reached through the permutations of that numbering (variants)"""
+    def __init__(self, hid, query_id, start, end, bitscore):
+        self.hid, self.query_id, self.hit_id = hid, query_id, "cds"
+        self.hit_start, self.hit_end, self.bitscore = start, end, bitscore
+
+    def __hash__(self):
+        return self.hid
+
+    def __eq__(self, other):
+        return self is other
+
+    def __ne__(self, other):
+        return self is not other
+
+
+class FilterEquivalent(Harness):
+    pid, name = "C13", "filter_equivalent"
+    functions = [CPM + "filter_results", CPM + "filter_result_multiple", CPM + "hsp_overlap_size"]
+    bound = ("k <= 3 (quick, plus four-hit chains for two profile layouts) / 4 (thorough) hits on one gene, profiles from {p, q} (one equivalence group) and r (outside it), "
+             "symbolic hit coordinates and bitscores, every input order and every set-iteration numbering")
+    outside = "k > 4; several genes (the functions treat genes independently); more than one equivalence group"
+    stubs = ["Bio HSP objects replaced by a stand-in with the attributes filter_results reads; set iteration order chosen by the harness"]
+
+    def variants(self, tier):
+        out = []
+        kmax = 3 if tier == "quick" else 4
+        for k in range(2, kmax + 1):
+            for profs in itertools.product("pqr", repeat=k):
+                if profs != tuple(sorted(profs)):
+                    continue
+                if tier == "thorough" and k == 4 and profs.count("r") > 1:
+                    continue
+                for numbering in itertools.permutations(range(k)):
+                    if k == 4 and numbering[0] > numbering[-1]:
+                        continue
+                    out.append({"profiles": list(profs), "numbering": list(numbering)})
+        if tier == "quick":
+            # chains of four overlapping hits need four hits: two profile layouts, two numberings
+            for profs in (("p", "p", "q", "q"), ("p", "q", "p", "q")):
+                for numbering in ((0, 1, 2, 3), (2, 0, 3, 1)):
+                    out.append({"profiles": list(profs), "numbering": list(numbering)})
+        return out
+
+    def vars(self, var):
+        d = {}
+        for i in range(len(var["profiles"])):
+            d["s%d" % i] = "int"
+            d["e%d" % i] = "int"
+            d["sc%d" % i] = "real"
+        return d
+
+    def pre(self, var, v):
+        k = len(var["profiles"])
+        c = []
+        for i in range(k):
+            c += [0 <= v["s%d" % i], v["s%d" % i] < v["e%d" % i], v["sc%d" % i] > 0]
+        return L.And(c)
+
+    def run(self, var, v):
+        k = len(var["profiles"])
+        outs = []
+        perms = list(itertools.permutations(range(k))) if k <= 3 else [tuple(range(k)), tuple(reversed(range(k))), (1, 3, 0, 2)]
+        for perm in perms:
+            hits = [FakeProfileHSP(var["numbering"][i], var["profiles"][i], v["s%d" % i], v["e%d" % i], v["sc%d" % i])
+                    for i in range(k)]
+            ordered = [hits[i] for i in perm]
+            results = list(ordered)
+            by_id = {"cds": list(ordered)}
+            results, by_id = cp.filter_results(results, by_id, [{"p", "q"}])
+            survivors_1 = sorted(hits.index(h) for h in by_id["cds"])
+            results, by_id = cp.filter_result_multiple(results, by_id)
+            survivors_2 = sorted(hits.index(h) for h in by_id["cds"])
+            outs.append([survivors_1, survivors_2, sorted(hits.index(h) for h in results) == survivors_2])
+        return outs
+
+    def post(self, var, v, out):
+        if is_raised(out):
+            return [("no_raise", False)]
+        k = len(var["profiles"])
+        profs = var["profiles"]
+        competing = len({p for p in profs if p in "pq"}) >= 2
+        ov = [[(L.Min(v["e%d" % i], v["e%d" % j]) - L.Max(v["s%d" % i], v["s%d" % j]) > 20) if i != j else True
+               for j in range(k)] for i in range(k)]
+        reach = L.closure(k, ov) if competing else [[i == j for j in range(k)] for i in range(k)]
+        distinct = L.And([v["sc%d" % i] != v["sc%d" % j] for i in range(k) for j in range(i + 1, k)])
+        cl = []
+        first = out[0]
+        for other in out[1:]:
+            cl.append(("same_survivors_for_every_order_when_scores_differ",
+                       L.Implies(distinct, first[0] == other[0] and first[1] == other[1])))
+        for o in out:
+            s1, s2 = o[0], o[1]
+            for i in range(k):
+                # best of its overlap group: no group member scores strictly higher; exactly one survivor per group
+                beaten = L.Or([L.And(reach[i][j], v["sc%d" % j] > v["sc%d" % i]) for j in range(k) if j != i])
+                cl.append(("stage1_strictly_beaten_hit_is_removed", L.Implies(beaten, i not in s1)))
+                group_survivors = L.Count([L.And(reach[i][j], j in s1) for j in range(k)])
+                cl.append(("stage1_one_survivor_per_overlap_group", group_survivors == 1))
+            for i in s1:
+                same = [j for j in s1 if profs[j] == profs[i] and j != i]
+                beaten = L.Or([v["sc%d" % j] > v["sc%d" % i] for j in same])
+                cl.append(("stage2_best_hit_of_each_profile_survives", L.Implies(beaten, i not in s2)))
+            for p in set(profs[i] for i in s1):
+                cl.append(("stage2_exactly_one_hit_per_profile", len([i for i in s2 if profs[i] == p]) == 1))
+            cl.append(("stage2_only_drops", set(s2) <= set(s1)))
+            cl.append(("result_list_matches_mapping", o[2]))
+        return cl
+
+
+HARNESSES = [Refine(), FilterEquivalent()]
